@@ -72,6 +72,21 @@ def tv_vectors(tier):
                 a["p%d" % (3 * i + 1)] = float(y)
             for q, ov in ((0, 0), (2, 1), (1, 2)):
                 out.append((fn, dict(k=3, planar=0, point=q, overload=ov), a))
+    # walls seen from far away (map-frame coordinates): a single-pass covariance cancels catastrophically there
+    for fn in ("c09_v2d", "c09_h2d"):
+        a = dict(u)
+        for i, t in enumerate((0.0, 0.02, 0.05)):
+            a["p%d" % (3 * i)] = 0.6 * 5e5 - 0.8 * t
+            a["p%d" % (3 * i + 1)] = 0.8 * 5e5 + 0.6 * t + (1e-3 if i == 1 else 0.0)
+        out.append((fn, dict(k=3, planar=0, point=1, overload=0), a))
+    for fn in ("c09_v3d", "c09_h3d"):
+        a = dict(u)
+        for i, (s1, s2) in enumerate(((0.0, 0.0), (0.05, 0.0), (0.0, 0.05), (0.05, 0.06))):
+            # plane through (2,1,2)/3 * 5e5 spanned by (1,-2,0)/sqrt5 and (-4,-2,5)/sqrt45, with a 1 mm bump on one point
+            a["p%d" % (3 * i)] = 2 / 3 * 5e5 + s1 * 0.4472135955 - s2 * 0.5962847940 + (1e-3 if i == 3 else 0.0)
+            a["p%d" % (3 * i + 1)] = 1 / 3 * 5e5 - s1 * 0.8944271910 - s2 * 0.2981423970
+            a["p%d" % (3 * i + 2)] = 2 / 3 * 5e5 + s2 * 0.7453559925
+        out.append((fn, dict(k=4, planar=0, point=1, overload=0), a))
     for fn in ("c09_v3d", "c09_h3d"):
         for z in (0.5, -0.5):
             a = dict(u)
